@@ -385,7 +385,7 @@ func (c04) Exec(cc core.Case, r *core.Rec) []core.Failure {
 			if sharedL[lkey] == nil {
 				sharedL[lkey] = lits
 			}
-			constrs = append(constrs, maxsat.Constr{Lits: sharedL[lkey], Coeffs: coeffs, AtLeast: k.K, Weight: k.W})
+			constrs = append(constrs, mxConstr(sharedL[lkey], coeffs, k.K, k.W))
 		}
 		perm := c.Perm
 		maxsat.VerifCostPerm = func(k int) []int {
@@ -592,4 +592,23 @@ func EnumWCNF(tier string, yield func(text string, n int, hard, soft [][]int, so
 		}
 		return yield(m.Text, m.N, m.Hard, m.Soft, m.SoftW)
 	})
+}
+
+// mxConstr states one constraint through the documented constructor functions of package maxsat (the struct
+// literal is used only for the shape no constructor produces exactly: none at present).
+func mxConstr(lits []maxsat.Lit, coeffs []int, atLeast, weight int) maxsat.Constr {
+	clause := coeffs == nil && atLeast == 1
+	switch {
+	case clause && weight == 0:
+		return maxsat.HardClause(lits...)
+	case clause && weight == 1:
+		return maxsat.SoftClause(lits...)
+	case clause:
+		return maxsat.WeightedClause(lits, weight)
+	case weight == 0:
+		return maxsat.HardPBConstr(lits, coeffs, atLeast)
+	case weight == 1:
+		return maxsat.SoftPBConstr(lits, coeffs, atLeast)
+	}
+	return maxsat.WeightedPBConstr(lits, coeffs, atLeast, weight)
 }
